@@ -16,12 +16,17 @@ import (
 )
 
 func (r *ndRun) byzSign(b *ndNode, rnd basics.Round, per period, s step, pv proposalValue, l Ledger) (uv unauthenticatedVote, err error) {
+	return ndSignWith(r.world, b.id, rnd, per, s, pv, l)
+}
+
+// ndSignWith signs with the keys of world w (probes use a scratch world: signing advances the key's sub-key generator).
+func ndSignWith(w *ndWorld, id int, rnd basics.Round, per period, s step, pv proposalValue, l Ledger) (uv unauthenticatedVote, err error) {
 	defer func() {
 		if x := recover(); x != nil {
 			err = fmt.Errorf("makeVote panicked: %v", x)
 		}
 	}()
-	part := r.world.parts[b.id]
+	part := w.parts[id]
 	rv := rawVote{Sender: part.Parent, Round: rnd, Period: per, Step: s, Proposal: pv}
 	return makeVote(rv, crypto.OneTimeSigner{OneTimeSignatureSecrets: part.Voting}, part.VRF, l)
 }
